@@ -226,7 +226,7 @@ func checkDefaultCase(w *schema.Type, paths [][]string, supplied map[int]bool, r
 	want := refjson.Fill(v)
 	for i, p := range paths {
 		g, wv := getAt(got, p), getAt(want, p)
-		if !schema.Equal(g, wv) {
+		if !schema.EqualExact(g, wv) {
 			k := "default-not-applied"
 			if supplied[i] {
 				k = "supplied-value-lost"
@@ -236,7 +236,7 @@ func checkDefaultCase(w *schema.Type, paths [][]string, supplied map[int]bool, r
 				fmt.Sprintf("document supplying [%s]: field %s is %s, want %s", strings.Join(names, ","), strings.Join(p, "."), g, wv)
 		}
 	}
-	if !schema.Equal(got, want) {
+	if !schema.EqualExact(got, want) {
 		return "altered", "", fmt.Sprintf("document supplying [%s]: decoded %s want %s", strings.Join(names, ","), got, want)
 	}
 	return "", "", ""
@@ -311,7 +311,7 @@ func partC13(a *hcli.Args, rep *report.Report, univName string, u *schema.Univer
 			for _, p := range paths {
 				f := fieldAt(w, p)
 				want := refjson.Literal(f.Type, *f.Default)
-				if g := getAt(got, p); !schema.Equal(g, want) {
+				if g := getAt(got, p); !schema.EqualExact(g, want) {
 					rep.Fail(fmt.Sprintf("%s defaults constructor default-not-applied %s %s %s default=%s", a.Gen, w.Name, strings.Join(p, "."), f.Type, *f.Default),
 						fmt.Sprintf("New%sWithDefaultValues(): field %s is %s, want %s", w.Name, strings.Join(p, "."), g, want), nil)
 					okAll = false
@@ -351,7 +351,7 @@ func partC13(a *hcli.Args, rep *report.Report, univName string, u *schema.Univer
 				for _, p := range paths {
 					f := fieldAt(w, p)
 					want := refjson.Literal(f.Type, *f.Default)
-					if g := getAt(got, p); !schema.Equal(g, want) {
+					if g := getAt(got, p); !schema.EqualExact(g, want) {
 						rep.Fail(fmt.Sprintf("%s defaults aliasing %s %s %s", a.Gen, w.Name, strings.Join(p, "."), f.Type),
 							fmt.Sprintf("record %s: after mutating the defaults of an instance from %s in place, field %s of an independent instance from %s reads %s, want %s",
 								w.Name, an, strings.Join(p, "."), bn, g, want), nil)
